@@ -12,7 +12,9 @@
    (ValueFixedModuloKnown):  taint "retarget-shared"  StoreLazy of an array whose name occurs in another live plan   (F8)
                              taint "retarget-twice"   a second lazy store of an already re-targeted array           (F9)
                              taint "name-collision"   plans merged that give one name to two different nodes        (F10)
-   hist (history variable, hidden by View) records the API calls so that behaviours can be replayed against cubed. *)
+   hist (history variable, hidden by View) records the API calls so that behaviours can be replayed against cubed; each record
+   carries tb, the taint set BEFORE the call, so that a replay failure at step k is excused only by a taint that had arisen by
+   step k (the taint after step k is the tb of step k+1, or the final taint). *)
 EXTENDS Integers, Sequences, FiniteSets, TLC, Json
 CONSTANTS Procs, MaxH, Targets, MaxSteps
 VARIABLES h, ops, actr, octr, disk, bad, taint, hist
@@ -41,7 +43,7 @@ NewInput(p, pid) ==
      /\ actr' = [actr EXCEPT ![p] = n] /\ octr' = [octr EXCEPT ![p] = o]
      /\ h' = Append(h, [proc |-> p, name |-> nm, zarr |-> z, val |-> Tok("in", pid * 100 + n, <<>>),
                         nodes |-> (nm :> Node("array", z, 0, nm)) @@ (OName(o) :> Node("src", NoRef, 0, nm))])
-     /\ hist' = Append(hist, [a |-> "input", p |-> pid, i |-> 0, j |-> 0, t |-> 0])
+     /\ hist' = Append(hist, [a |-> "input", p |-> pid, i |-> 0, j |-> 0, t |-> 0, tb |-> taint])
      /\ UNCHANGED <<ops, disk, bad, taint>>
 Derive(p, pid, srcs) ==
   /\ Len(h) < MaxH /\ \A i \in 1..Len(srcs) : h[srcs[i]].proc = p
@@ -56,10 +58,10 @@ Derive(p, pid, srcs) ==
      /\ taint' = taint \cup (IF \/ (Len(srcs) = 2 /\ (\E n1 \in DOMAIN h[srcs[1]].nodes : n1 \in DOMAIN h[srcs[2]].nodes /\ h[srcs[1]].nodes[n1] # h[srcs[2]].nodes[n1]))
                                 \/ nm \in DOMAIN base \/ OName(o) \in DOMAIN base      \* the fresh name is already taken by a shipped node
                              THEN {"name-collision"} ELSE {})
-     /\ hist' = Append(hist, [a |-> "derive", p |-> pid, i |-> srcs[1], j |-> IF Len(srcs) = 2 THEN srcs[2] ELSE 0, t |-> 0])
+     /\ hist' = Append(hist, [a |-> "derive", p |-> pid, i |-> srcs[1], j |-> IF Len(srcs) = 2 THEN srcs[2] ELSE 0, t |-> 0, tb |-> taint])
      /\ UNCHANGED <<disk, bad>>
 Ship(i, q) == /\ Len(h) < MaxH /\ h[i].proc # q /\ h' = Append(h, [h[i] EXCEPT !.proc = q])
-              /\ hist' = Append(hist, [a |-> "ship", p |-> PIdOf[q], i |-> i, j |-> 0, t |-> 0])
+              /\ hist' = Append(hist, [a |-> "ship", p |-> PIdOf[q], i |-> i, j |-> 0, t |-> 0, tb |-> taint])
               /\ UNCHANGED <<ops, actr, octr, disk, bad, taint>>
 StoreLazy(i, t) ==
   /\ h[i].zarr[1] = "lazy"
@@ -68,7 +70,7 @@ StoreLazy(i, t) ==
      /\ h' = [h EXCEPT ![i].zarr = tgt, ![i].nodes = [n \in DOMAIN h[i].nodes |-> IF n = nm THEN [h[i].nodes[n] EXCEPT !.target = tgt] ELSE h[i].nodes[n]]]
      /\ ops' = [k \in 1..Len(ops) |-> IF k \in prodobjs THEN [ops[k] EXCEPT !.wtarget = tgt] ELSE ops[k]]
      /\ taint' = taint \cup (IF \E j \in 1..Len(h) : j # i /\ nm \in DOMAIN h[j].nodes THEN {"retarget-shared"} ELSE {})
-     /\ hist' = Append(hist, [a |-> "storelazy", p |-> 0, i |-> i, j |-> 0, t |-> t])
+     /\ hist' = Append(hist, [a |-> "storelazy", p |-> 0, i |-> i, j |-> 0, t |-> t, tb |-> taint])
      /\ UNCHANGED <<actr, octr, disk, bad>>
 \* store onto an already re-targeted source: second target replaces the first (store([x, x], [t1, t2]))
 StoreAgain(i, t) ==
@@ -78,7 +80,7 @@ StoreAgain(i, t) ==
      /\ h' = [h EXCEPT ![i].zarr = tgt, ![i].nodes = [n \in DOMAIN h[i].nodes |-> IF n = nm THEN [h[i].nodes[n] EXCEPT !.target = tgt] ELSE h[i].nodes[n]]]
      /\ ops' = [k \in 1..Len(ops) |-> IF k \in prodobjs THEN [ops[k] EXCEPT !.wtarget = tgt] ELSE ops[k]]
      /\ taint' = taint \cup {"retarget-twice"}
-     /\ hist' = Append(hist, [a |-> "storeagain", p |-> 0, i |-> i, j |-> 0, t |-> t])
+     /\ hist' = Append(hist, [a |-> "storeagain", p |-> 0, i |-> i, j |-> 0, t |-> t, tb |-> taint])
      /\ UNCHANGED <<actr, octr, disk, bad>>
 RECURSIVE RunOps(_, _, _)
 RunOps(nodes, todo, d) ==
@@ -100,7 +102,7 @@ Compute(i) ==
          d1 == RunOps(nodes, {n \in DOMAIN nodes : nodes[n].kind = "op"}, CreateAll(lazies, disk))
          res == IF h[i].zarr[1] = "virt" THEN h[i].val ELSE IF Has(d1, h[i].zarr) THEN Get(d1, h[i].zarr) ELSE Missing
      IN /\ disk' = d1 /\ bad' = (bad \/ res # h[i].val)
-        /\ hist' = Append(hist, [a |-> "compute", p |-> 0, i |-> i, j |-> 0, t |-> IF res # h[i].val THEN 1 ELSE 0])
+        /\ hist' = Append(hist, [a |-> "compute", p |-> 0, i |-> i, j |-> 0, t |-> IF res # h[i].val THEN 1 ELSE 0, tb |-> taint])
   /\ UNCHANGED <<h, ops, actr, octr, taint>>
 Next == \/ \E p \in Procs : NewInput(p, PIdOf[p])
         \/ \E p \in Procs : \E i \in 1..Len(h) : Derive(p, PIdOf[p], <<i>>)
